@@ -875,6 +875,19 @@ def replay(path):
             raised, statuses, overall = call(one[rp["function"]], p)
             print("raised:", repr(raised), "steps:", statuses, "overall:", overall)
             return 1 if raised is not None or overall != max(statuses, default=0) else 0
+        if "typed" in rp and "carrier" in rp:
+            typ, vals, perturb = typed_bases()[rp["typed"]]
+            base = {(bi, c): v for bi, v in enumerate(vals) for c in CARRIERS}
+            key = (rp["base_index"], rp["carrier"])
+            alt = next(a for a in perturb(base[key]) if repr(a) == rp["perturbed"])
+            fn = {"json": "json.check_json_files_equivalence", "xml": "xml.check_xml_files_equivalence"}[rp["format"]]
+            p0, p1 = os.path.join(tmp, "a." + rp["format"]), os.path.join(tmp, "b." + rp["format"])
+            write_store(typed_store(rp["typed"], typ, base), rp["format"], p0)
+            write_store(typed_store(rp["typed"], typ, dict(base, **{})) if False else
+                        typed_store(rp["typed"], typ, {**base, key: alt}), rp["format"], p1)
+            raised, statuses, overall = call(two[fn], p0, p1)
+            print(f"{base[key]!r} vs {alt!r}: raised:", repr(raised), "steps:", statuses, "overall:", overall)
+            return 0 if raised is None and overall == 2 else 1
         if "path" in rp:
             st = directed_store() if rp.get("store") == "directed" else example_stores()["full"]
             p1 = os.path.join(tmp, "a.json")
